@@ -8,6 +8,19 @@ from ..expression import ast as sugar
 from . import ast as desugar
 
 
+def shared_by_every_term(self: sugar.Expression) -> set[str]:
+    """Indexes that appear in every additive term of an expression once it is fully expanded."""
+    match self:
+        case sugar.Tensor():
+            return set(self.indexes)
+        case sugar.Add() | sugar.Subtract():
+            return shared_by_every_term(self.left) & shared_by_every_term(self.right)
+        case sugar.Multiply():
+            return shared_by_every_term(self.left) | shared_by_every_term(self.right)
+        case _:
+            return set()
+
+
 @singledispatch
 def desugar_expression(
     self: sugar.Expression, contract_indexes: set[str], ids: Iterator[int]
@@ -46,7 +59,13 @@ def desugar_add(
     left_indexes = set(self.left.index_participants().keys()).intersection(contract_indexes)
     right_indexes = set(self.right.index_participants().keys()).intersection(contract_indexes)
 
-    intersection_indexes = left_indexes.intersection(right_indexes)
+    # A contraction can only be hoisted around the sum if no term of either side lacks the index;
+    # otherwise, that term would be summed over an index it does not have.
+    intersection_indexes = (
+        left_indexes.intersection(right_indexes)
+        & shared_by_every_term(self.left)
+        & shared_by_every_term(self.right)
+    )
 
     output = desugar.Add(
         desugar_expression(self.left, left_indexes - intersection_indexes, ids),
@@ -66,7 +85,13 @@ def desugar_subtract(
     left_indexes = set(self.left.index_participants().keys()).intersection(contract_indexes)
     right_indexes = set(self.right.index_participants().keys()).intersection(contract_indexes)
 
-    intersection_indexes = left_indexes.intersection(right_indexes)
+    # A contraction can only be hoisted around the sum if no term of either side lacks the index;
+    # otherwise, that term would be summed over an index it does not have.
+    intersection_indexes = (
+        left_indexes.intersection(right_indexes)
+        & shared_by_every_term(self.left)
+        & shared_by_every_term(self.right)
+    )
 
     output = desugar.Add(
         desugar_expression(self.left, left_indexes - intersection_indexes, ids),
